@@ -21,6 +21,41 @@ type CorreOTSendSetup struct {
 	_K_Delta [params.OTParam][params.OTBytes]byte
 }
 
+// MarshalBinary encodes the setup. It only has unexported fields, so without this method it was
+// written as an empty map and lost whenever the key material holding it was stored.
+func (s *CorreOTSendSetup) MarshalBinary() ([]byte, error) {
+	out := make([]byte, 0, params.OTBytes*(1+params.OTParam))
+	out = append(out, s._Delta[:]...)
+	for i := range s._K_Delta {
+		out = append(out, s._K_Delta[i][:]...)
+	}
+	return out, nil
+}
+
+// UnmarshalBinary restores a setup written by MarshalBinary.
+func (s *CorreOTSendSetup) UnmarshalBinary(data []byte) error {
+	if len(data) != params.OTBytes*(1+params.OTParam) {
+		return errors.New("CorreOTSendSetup: wrong length")
+	}
+	if allZero(data) {
+		return errors.New("CorreOTSendSetup: empty setup")
+	}
+	copy(s._Delta[:], data)
+	for i := range s._K_Delta {
+		copy(s._K_Delta[i][:], data[params.OTBytes*(1+i):])
+	}
+	return nil
+}
+
+func allZero(data []byte) bool {
+	for _, b := range data {
+		if b != 0 {
+			return false
+		}
+	}
+	return true
+}
+
 // CorreOTSetupSender contains all of the state to run the Sender's setup of a Correlated OT.
 //
 // This struct is needed, because there are multiple rounds in the setup.
@@ -121,6 +156,35 @@ func (r *CorreOTSetupSender) Round3(msg *CorreOTSetupReceiveRound3Message) (*Cor
 type CorreOTReceiveSetup struct {
 	_K_0 [params.OTParam][params.OTBytes]byte
 	_K_1 [params.OTParam][params.OTBytes]byte
+}
+
+// MarshalBinary encodes the setup (see CorreOTSendSetup.MarshalBinary).
+func (s *CorreOTReceiveSetup) MarshalBinary() ([]byte, error) {
+	out := make([]byte, 0, 2*params.OTBytes*params.OTParam)
+	for i := range s._K_0 {
+		out = append(out, s._K_0[i][:]...)
+	}
+	for i := range s._K_1 {
+		out = append(out, s._K_1[i][:]...)
+	}
+	return out, nil
+}
+
+// UnmarshalBinary restores a setup written by MarshalBinary.
+func (s *CorreOTReceiveSetup) UnmarshalBinary(data []byte) error {
+	if len(data) != 2*params.OTBytes*params.OTParam {
+		return errors.New("CorreOTReceiveSetup: wrong length")
+	}
+	if allZero(data) {
+		return errors.New("CorreOTReceiveSetup: empty setup")
+	}
+	for i := range s._K_0 {
+		copy(s._K_0[i][:], data[params.OTBytes*i:])
+	}
+	for i := range s._K_1 {
+		copy(s._K_1[i][:], data[params.OTBytes*(params.OTParam+i):])
+	}
+	return nil
 }
 
 // CorreOTSetupReceiver holds the Receiver's state on a Correlated OT Setup.
